@@ -187,7 +187,7 @@ def register(reg):
                           ("idx", "implies(af_name == 'idx', result == i)"),
                           ("feature", "implies(not reserved(af_name), same(result, col(self, af_name, i)))")]))
 
-    reg.add(Spec(T + "getListAnalyticalFeatures", S, "list[str]", requires=["twf(self)"],
+    reg.add(Spec(T + "getListAnalyticalFeatures", S, "list[str]", requires=[],
                  ensures=[("as-many-as-listed", "len(result) == nfeat(self)"),
                           ("only-listed", "all(hasname(self, result[i]) for i in range(0, len(result)))"),
                           ("every-listed", "all(implies(hasname(self, k), any(result[i] == k for i in range(0, len(result)))) for k in strs)"),
@@ -245,8 +245,32 @@ def register(reg):
                  ensures=[("the-observation", "result is obs(self, n)")]), variant="index")
 
 
+def sf_first_is_hash(ex, st, name):
+    strings.code("#")
+    return vbool(strings.FIRST_IS_HASH(name.terms[0]))
+
+
 def _more(reg):
     S = dict(self="Track")
+    reg.specfuncs.update(first_is_hash=sf_first_is_hash)
+    # the expression evaluator is abstract here (bounded only): it leaves a well-formed table and may add / remove names
+    reg.add(Spec(T + "_Track__evaluate", dict(self="Track", expression="str", external="list[any]"), "any", trusted=True,
+                 requires=["twf(self)"], modifies=["Obs.features", "Track." + DICO, "ENUCoords.E", "ENUCoords.N", "ENUCoords.U"],
+                 ensures=["twf(self)"]))
+    HAD = "any(SUPPRESS_AF[q] == k for q in range(0, len(SUPPRESS_AF)))"
+    reg.add(Spec(T + "operate", dict(self="Track", operator="str"), "any",
+                 requires=["twf(self)"],
+                 modifies=["Obs.features", "Track." + DICO, "ENUCoords.E", "ENUCoords.N", "ENUCoords.U"],
+                 locals=dict(arg1="list[any]"),
+                 loops={"1": LoopSpec(inv=[
+                     "twf(self)",
+                     "all(implies(hasname(self, k), %s) for k in strs)" % HAD,
+                     "all(hasname(self, SUPPRESS_AF[q]) == (q >= _k or not first_is_hash(SUPPRESS_AF[q])) for q in range(0, len(SUPPRESS_AF)))",
+                     "all(implies(i_ < j_, SUPPRESS_AF[i_] != SUPPRESS_AF[j_]) for i_ in range(0, len(SUPPRESS_AF)) for j_ in range(0, len(SUPPRESS_AF)))",
+                     "all(not reserved(SUPPRESS_AF[q]) for q in range(0, len(SUPPRESS_AF)))"])},
+                 ensures=[("wf", "twf(self)"),
+                          ("no-evaluator-temporary-remains-listed", "all(implies(hasname(self, k), not first_is_hash(k)) for k in strs)")]),
+            variant="expression")
     OTHER_OBS = ("all(implies(all(obs(self, q) != o for q in range(0, npts(self))), same(o.features, old(o.features))) "
                  "for o in refs(Obs))")
     OTHER_TRACKS = "all(implies(r != self, same(r.%s, old(r.%s))) for r in refs(Track))" % (DICO, DICO)
@@ -365,4 +389,4 @@ def _more(reg):
 FUNCTIONS = [T + n for n in ("getObsAnalyticalFeature", "getListAnalyticalFeatures", "setObsAnalyticalFeature",
                              "createAnalyticalFeature", "createAnalyticalFeature@list",
                              "updateAnalyticalFeature", "updateAnalyticalFeature@list", "removeAnalyticalFeature",
-                             "getAnalyticalFeature", "__getitem__@name_index", "__getitem__@index")] + ["tracklib.core.utils:addListToAF"]
+                             "getAnalyticalFeature", "__getitem__@name_index", "__getitem__@index", "operate@expression")] + ["tracklib.core.utils:addListToAF"]
